@@ -489,11 +489,17 @@ fn snd_content(mask: u8, vmax: u64) {
 
 // Piece 4 (heavy, thorough tier): the whole real compute_partial_delta_respecting_mtu with the serializer
 // recorder (h_delta.rs): recorded ops == reference model, for every truncation point.
-fn snd_full(mask: u8, vmax: u64) {
+fn snd_full(mask: u8, vmax: u64) { snd_full_pat(mask, vmax, u32::MAX) }
+/// `pattern` = u32::MAX: truncation point symbolic (prefix model, 0..=5 accepted calls); otherwise the acceptance
+/// pattern of the serializer calls is a shape (bit i = i-th call accepted), which also covers "a large op does not
+/// fit but a later smaller one does"
+fn snd_full_pat(mask: u8, vmax: u64, pattern: u32) {
     unsafe { crate::vstd::randmodel::SINGLE_MEMBER = true; }
-    let cut: usize = kani::any();
-    kani::assume(cut <= 5);
-    rec::rec_reset(cut);
+    let cut: usize = if pattern == u32::MAX { let c: usize = kani::any(); kani::assume(c <= 5); c } else {
+        // accepted prefix length of the reference: header, then key-values while consecutive calls are accepted
+        if pattern & 1 == 0 { 0 } else { let mut k = 1usize; while k < 6 && (pattern >> k) & 1 == 1 { k += 1; } k }
+    };
+    if pattern == u32::MAX { rec::rec_reset(cut); } else { rec::rec_reset_pattern(pattern); }
     let (s, c) = shaped_state(mask, vmax);
     let (dgc, dmax): (u64, u64) = (kani::any(), kani::any());
     let mut cs = mk_cluster_state();
